@@ -190,6 +190,17 @@ static void record_first(vbuf *sb) {
 	if (!have || (last.tag != 0x0803 && last.tag != 0x0805)) return;
 	vb_init(&out); vb_init(&pl);
 	vb_put(&pl, top.val + last_off, last.hdr + last.len);
+	if (g_rec_first == 2) {
+		/* record, calendar chain, aggregation chains (the order in which some aggregators deliver a signature) */
+		size_t o2 = 0, cal_off = 0, cal_n = 0;
+		while (o2 < last_off) {
+			if (rtlv_read(top.val + o2, last_off - o2, &t) != 0) vf_harness_error("record_first: child");
+			if (t.tag == 0x0802) { cal_off = o2; cal_n = t.hdr + t.len; }
+			o2 += t.hdr + t.len;
+		}
+		if (cal_n) { vb_put(&pl, top.val + cal_off, cal_n); vb_put(&pl, top.val, cal_off); vb_put(&pl, top.val + cal_off + cal_n, last_off - cal_off - cal_n); }
+		else vb_put(&pl, top.val, last_off);
+	} else
 	vb_put(&pl, top.val, last_off);
 	rtlv_put(&out, top.tag, 0, 0, pl.p, pl.n, 1);
 	vb_reset(sb); vb_putvb(sb, &out);
@@ -409,6 +420,26 @@ static void one_case(int iface, int transport, int version, int src_tail, int nc
 				if (v.violated | v.uncomputable) vf_fail("result-inconsistent", "extended signature violates 0x%x/0x%x", v.violated, v.uncomputable);
 				vb_free(&g);
 			}
+			if (g_rec_first && iface == 0 && reply == R_CORRECT) {
+				/* the result is extended once more (same target): again the reference result, and its bytes parse */
+				KSI_Signature *ext2 = NULL;
+				unsigned char *raw2 = NULL;
+				size_t rl2 = 0;
+				int r2 = KSI_Signature_extendTo(ext, ctx, to, &ext2);
+				vf_count("impl_calls", 1);
+				if (r2 != KSI_OK || ext2 == NULL) vf_fail("acceptable-reply-rejected", "%s: extending the extended signature once more (same target, correct reply) fails with 0x%x", what, r2);
+				else if (KSI_Signature_serialize(ext2, &raw2, &rl2) != KSI_OK) vf_fail("unserializable", "twice extended signature cannot be serialized");
+				else {
+					rsig got2;
+					vbuf g2;
+					vb_init(&g2);
+					if (rs_parse(raw2, rl2, &got2) != 0) vf_fail("result-not-wellformed", "%s: the signature extended twice is not a well-formed signature (%zu bytes; once extended: %zu)", what, rl2, rl);
+					else { rs_serialize(&got2, &g2); if (g2.n != rb.n || memcmp(g2.p, rb.p, g2.n) != 0) vf_fail("result-differs", "%s: the signature extended twice differs from the reference result (%zu vs %zu bytes)", what, g2.n, rb.n); else vf_outcome("extended-twice:identical"); }
+					vb_free(&g2);
+				}
+				KSI_free(raw2);
+				KSI_Signature_free(ext2);
+			}
 		}
 		KSI_free(raw);
 	} else {
@@ -524,11 +555,11 @@ static void run_all(void) {
 	for (g_own_ctx = 1; g_own_ctx <= 2; g_own_ctx++) run();
 	g_own_ctx = 0;
 	/* sources whose record comes first */
-	g_rec_first = 1;
+	for (g_rec_first = 1; g_rec_first <= 2; g_rec_first++)
 	for (iface = 0; iface < 3; iface++) for (tr = 0; tr < 2; tr++) for (tail = 2; tail <= 3; tail++) for (target = 0; target < 3; target += 2) for (pubrec = 0; pubrec < 2; pubrec++) {
 		if (iface == 0 && pubrec != 0) continue;
 		if (iface != 0 && pubrec == 0 && target != 0) continue;
-		if (!vf_case_begin("ext-recfirst:if%d:tr%d:tail%d:target%d:pr%d", iface, tr, tail, target, pubrec)) continue;
+		if (!vf_case_begin("ext-recfirst%d:if%d:tr%d:tail%d:target%d:pr%d", g_rec_first, iface, tr, tail, target, pubrec)) continue;
 		one_case(iface, tr, 2, tail, 1, target, pubrec, R_CORRECT, 0);
 		vf_outcome("source:record-first");
 		vf_case_end(1);
